@@ -163,6 +163,16 @@ CHECKS.update({
    design_ref='DESIGN.md 4 (C22)'),
 })
 
+CHECKS.update({
+ 'C23': dict(
+   category='exploration', engine='sympeg',
+   technique='solver-enumerated grammar texts (z3 AllSAT over refined character classes of the live textX meta-grammar parser encoded by sympeg) compiled by the real metamodel_from_str; verdict by replay only',
+   text=("Witness replay only (stated exception in DESIGN.md): for 50+ grammar-text templates and windows of <= 2 / 4 free characters the solver enumerates one text per accepted "
+         "(and a sample of rejected) character-class string of the live meta-grammar parser, the classes being refined by the characters the visitor distinguishes; each text is compiled "
+         "under three configurations and must give a metamodel or a TextXError with a message."),
+   design_ref='DESIGN.md 4 (C23)'),
+})
+
 NA = {
  'C16': "history quantifier over whole-program API calls; no data dimension to make symbolic — only enumeration of concrete call sequences would remain (DESIGN.md 5)",
  'C17': "decided by file-system I/O, glob, abspath and repository objects handed between nested real loads; only enumeration of import graphs would remain (DESIGN.md 5)",
